@@ -805,6 +805,75 @@ def validate_traces(ck, traces, dev, quiet=False):
     return rejected
 
 
+# ================================================================================================ PNG-predicted images, row by row
+PRED_SPEC = os.path.join(SPECS, "image", "MC_PredictedImage.tla")
+
+
+def direction_predicted(ck):
+    """specs/image/PredictedImage.tla: every sequence of row filter types; each image exported and read back"""
+    from ..realise import codecs as K
+    mod = "RunP"
+    wrapper = os.path.join(ck.tmp, mod + ".tla")
+    with open(wrapper, "w") as f:
+        f.write("---- MODULE %s ----\nEXTENDS MC_PredictedImage\n====\n" % mod)
+    cfg = write_cfg(os.path.join(ck.tmp, mod + ".cfg"),
+                    constants={"Shapes": "<- ShapesQuick" if ck.tier == "quick" else "<- ShapesFull", "DevChoices": "<- OnlyIntended"},
+                    invariants=["SamplesBack", "RefInverts", "EncLength"], constraints=["EmitTerminal"])
+    emit = os.path.join(ck.tmp, mod + ".ndjson")
+    res = run_tlc(wrapper, cfg, emit=emit, coverage=(ck.tier == "quick"), timeout=3600, lib=LIB)
+    ck.add_tlc(res, "PredictedImage: every sequence of row filter types")
+    if not res.ok:
+        raise MachineryError("PredictedImage.tla violates %s on the intended design:\n%s" % (res.violated, res.error_text[:3000]))
+    if res.actions:
+        require_coverage(res, ["AWriteRow", "AWriteDone", "AReadRow", "AReadDone"])
+    if ck.tier == "thorough":
+        cfg2 = write_cfg(os.path.join(ck.tmp, mod + "_teeth.cfg"), constants={"Shapes": "<- ShapesQuick", "DevChoices": "<- DevNone"},
+                         invariants=["P_SamplesBack"])
+        r2 = run_tlc(wrapper, cfg2, workers=2, timeout=600, lib=LIB)
+        ck.add_tlc(r2, "counterexample search: NoneKeepsAbove against P_SamplesBack")
+        if r2.ok or r2.violated != "P_SamplesBack":
+            raise MachineryError("vacuous: NoneKeepsAbove does not violate SamplesBack in PredictedImage.tla")
+    outroot = tempfile.mkdtemp(dir=ck.tmp)
+    n = 0
+    pairs = set()
+    for line in open(emit):
+        rec = json.loads(line)
+        n += 1
+        pk, w, h, types = rec["kind"], rec["w"], rec["h"], rec["types"]
+        bits, _, ncomp = R.PIX[pk]
+        data = bytes((3 * q + 1) % 256 for q in range(R.bytes_per_line(pk, w) * h))      # Sample of PredictedImage.tla
+        # two references against each other: the harness's predictor / un-predictor and the TLA+ row operators
+        if K.png_predict(data, ncomp, w, bits, types) != bytes(rec["enc"]) or bytes(rec["out"]) != data \
+                or K.png_ref_unpredict(bytes(rec["enc"]), ncomp, w, bits) != data:
+            raise MachineryError("PNG predictor references disagree for %s %dx%d row types %s" % (pk, w, h, types))
+        chain = [["FlatePNG"], ["LZWPNG"], ["A85", "FlatePNG"]][n % 3]
+        im = {"name": "P", "filters": chain, "pk": pk, "w": w, "h": h, "row_types": types, "samples": data}
+        outdir = tempfile.mkdtemp(dir=outroot)
+        err, files, _ = R.run_export(R.export_doc([im], variant=n), outdir)
+        shutil.rmtree(outdir, ignore_errors=True)
+        rp = {"imgs": [im], "preexisting": [], "origin": "predicted rows", "variant": n}
+        what = "%s %dx%d through %s with PNG row filter types %s" % (pk, w, h, "+".join(chain), types)
+        pairs.update(zip(types, types[1:]))
+        ck.case(1, ("png-rows", pk, w, h, tuple(types)))
+        ck.replayed += 1
+        if err:
+            ck.violation("exception:" + err, "export of %s raised %s" % (what, err), rp)
+            continue
+        blob = files.get("P.bmp")
+        if blob is None:
+            ck.violation("format:" + ",".join(files), "%s exported as %r, not as a bitmap" % (what, sorted(files)), rp)
+            continue
+        for wy in classify_bmp(blob, R.pdf_pixels(pk, w, h, data), w, h, {"bw": 1, "gray": 8, "rgb": 24}[pk]):
+            ck.violation("bmp:" + wy.split(":")[0], "P.bmp does not read back as the samples of %s: %s" % (what, wy), rp)
+    os.remove(emit)
+    shutil.rmtree(outroot, ignore_errors=True)
+    if n != res.emitted or n == 0:
+        raise MachineryError("emitted %d terminal states but read %d" % (res.emitted, n))
+    if len(pairs) != 25:
+        raise MachineryError("only %d of the 25 pairs of consecutive row filter types were realised" % len(pairs))
+    ck.extra["png_row_type_sequences_replayed"] = n
+
+
 # ================================================================================================ JBIG2 (extended coverage)
 JBIG2_SPEC = os.path.join(SPECS, "image", "MC_JBIG2.tla")
 JBIG2_TRACE_SPEC = os.path.join(SPECS, "image", "JBIG2Trace.tla")
@@ -1060,6 +1129,7 @@ def run(ck):
     t0 = time.time()
     phases = {}
     for name, fn in (("teeth", lambda: (export_teeth(ck), inline_teeth(ck)) if ck.tier == "thorough" else None), ("export_replay", lambda: direction_a_export(ck, dimg)),
+                     ("predicted_rows", lambda: direction_predicted(ck)),
                      ("inline_replay", lambda: direction_a_inline(ck, dinl)), ("sample_traces", lambda: direction_b(ck, dimg)),
                      ("jbig2_extended", lambda: direction_jbig2(ck))):
         fn()
@@ -1093,7 +1163,7 @@ def replay(path):
         outdir = tempfile.mkdtemp()
         for fn in case.get("preexisting", []):
             open(os.path.join(outdir, fn), "wb").write(b"already here")
-        err, files, _ = R.run_export(R.export_doc(case["imgs"]), outdir)
+        err, files, _ = R.run_export(R.export_doc(case["imgs"], variant=case.get("variant", 0)), outdir)
         print("error:", err, "files:", {k: len(v) for k, v in files.items()})
         bad = bool(err)
         for nm, blob in files.items():
